@@ -342,3 +342,44 @@ def member_at(env, seq, i):
     """instance: the element at a valid index belongs to the element set"""
     from .lib import seq_elems
     return z3.Implies(z3.And(i >= 0, i < z3.Length(seq)), z3.Select(seq_elems(seq), seq[i]))
+
+
+# ---- lemmas by induction -----------------------------------------------------------------------------------------------
+# A lemma P(n) about folds is proved by two closed obligations, P(0) and (n >= 0 and P(n)) => P(n+1), in which the fold
+# definitions appear as hypotheses (their unfolding instances at the terms mentioned).  LemmaEnv gives Fold what it
+# needs outside the verification of a function; instances of a proved lemma are then assumed where they are used
+# (use_lemma), tagged with the lemma's name so that the evidence lists them as proved, not trusted.
+
+class _LemmaCtx:
+    def __init__(self):
+        self.facts = []
+        self.fold_instances = set()
+        self.axiom_tags = set()
+        self._keepalive = []
+        self.heavy_mode = False
+
+    def assume(self, f, heavy=False):
+        if isinstance(f, bool):
+            f = z3.BoolVal(f)
+        self.facts.append(f)
+
+    def keep(self, t):
+        self._keepalive.append(t)
+        return t.get_id()
+
+
+class LemmaEnv:
+    def __init__(self):
+        import types
+        self._it = types.SimpleNamespace(ctx=_LemmaCtx(), engine=types.SimpleNamespace(assumed=set()))
+        self._heap = {}
+
+    def facts(self):
+        return list(self._it.ctx.facts)
+
+
+def use_lemma(env, name, instance):
+    """assume an instance of a lemma that is proved by induction elsewhere (contracts/lemmas.py)"""
+    env._it.engine.assumed.add('lemma %s (proved by induction, instances used)' % name)
+    env._it.ctx.assume(instance, heavy=True)
+    return instance
